@@ -71,10 +71,19 @@ broken translator obligation):
                  value, else `.error "ValueError"`;
                * `D[key]` for a module-level dict `D` regenerated by another translator module (SUBSCRIPT_DICTS),
                  as the *returned* expression: the value, or `.error "KeyError"`;
-               * `int(sqrt(e))` (anywhere outside conditionally evaluated sub-expressions and loops): `pyIsqrt e`
-                 = `.error "ValueError"` (math domain error) for e < 0, else the integer square root
-                 (ASSUMPTION, as in Model/C19: `int(math.sqrt(k)) = isqrt(k)`, exact for k < 2^52).
+               * `int(sqrt(e))`: `pyIsqrt e` = `.error "ValueError"` (math domain error) for e < 0, else the integer
+                 square root (ASSUMPTION, as in Model/C19: `int(math.sqrt(k)) = isqrt(k)`, exact for k < 2^52);
+               * `l[i]` for a list-typed parameter `l`: `pyGet l i` = the element (negative `i` counts from the end)
+                 or `.error "IndexError"`.
+               The last two may occur anywhere in a statement (they are evaluated, in source order, in front of
+               it: `match <raising> with | .error e => <leave with e> | .ok t => <statement using t>`) and in the
+               condition of a `while` loop (the loop becomes `while True: if not <cond>: break; ...`, its
+               condition an `Except String Bool` evaluated with Python's short-circuit order), but not inside
+               conditional expressions or and/or chains elsewhere.  Inside a loop "leave" means: `brk_ := true`,
+               `ret_ := some (.error e)`.
                A raising construct anywhere else, or in a function not declared `exc:`, is unsupported.
+  nested def : `def f(x, ...): return e` inside a function (no defaults / decorators, `e` must not read variables
+               that the enclosing function assigns): calls `f(a)` are expanded in place (`let x := a; e`).
 Semantics: Python ints are unbounded -> Lean `Int`; `//` = `Int.fdiv`,
 `%` = `Int.fmod` (Python's floor semantics; a ZERO divisor - Python: ZeroDivisionError - is NOT modelled: the companion
 theorems state `≠ 0` hypotheses wherever a divisor is not a non-zero literal), bit operations = Mathlib's
@@ -138,6 +147,7 @@ FUNCS = [
      ["obj:_start_address,_end_address,_offset", "int", "int"], "exc:none"),
     ("rig/machine_control/machine_controller.py", "SlicedMemoryIO.__getitem__",
      ["obj:_start_address,_end_address,_offset", "oslice"], "exc:tup2"),
+    ("rig/routing_table/ordered_covering.py", "_get_insertion_index", ["list:rec:key,mask", "int"], "exc:int"),
 ]
 
 # module-level tables of the source, already regenerated into Lean by other translator modules
@@ -174,6 +184,14 @@ def pyRange (a b c : Int) : List Int :=
 def pyWhile {σ : Type} (cond : σ → Bool) (body : σ → σ) : Nat → σ → Option σ
   | 0, s => if cond s then none else some s
   | fuel + 1, s => if cond s then pyWhile cond body fuel (body s) else some s
+
+/-- Python `l[i]` on a list: a negative index counts from the end, `IndexError` outside -/
+def pyGet {α : Type} (l : List α) (i : Int) : Except String α :=
+  let j : Int := if i < 0 then i + (l.length : Int) else i
+  if j < 0 then Except.error "IndexError"
+  else match l[j.toNat]? with
+    | some v => Except.ok v
+    | none => Except.error "IndexError"
 
 /-- Python `int(math.sqrt(n))` (integer square root, exact below 2^52; `ValueError: math domain error` for n < 0) -/
 def pyIsqrt (n : Int) : Except String Int :=
@@ -299,6 +317,9 @@ class Tr(object):
         self.uses_fuel = False
         self.fn = None
         self.nloops = 0
+        self.localfns = {}            # nested `def f(x): return e` -> (parameter names, e)
+        self.tmp_ty = {}              # hoisted temporaries -> Lean type
+        self.rec_elems = {}           # list-of-records parameter -> attribute names
         self.aux = []                 # definitions of loop bodies, emitted in front of the function
 
     # ---- helpers -------------------------------------------------------------
@@ -402,6 +423,8 @@ class Tr(object):
         if (isinstance(n, ast.Subscript) and isinstance(n.value, ast.Subscript)
                 and isinstance(n.value.value, ast.Name) and n.value.value.id in TABLES2D):
             return "Int × Int"
+        if self.is_list_index(n):
+            return self.elem_ty(n.value.id)
         if isinstance(n, ast.IfExp):
             return self.tyof(n.body)
         if isinstance(n, (ast.Compare, ast.BoolOp)) or (isinstance(n, ast.UnaryOp) and isinstance(n.op, ast.Not)):
@@ -412,8 +435,63 @@ class Tr(object):
             return "Bool"
         return "Int"
 
+    def raising(self, lean_exc_expr):
+        """a raising sub-expression (`Except String _`): hoisted in front of the current statement / condition leaf;
+        returns the name of its value"""
+        if not self.is_exc() or self.cond_depth:
+            raise NotImplementedError("raising expression in a conditionally evaluated position / "
+                                      "function not declared exc:")
+        t = self.tmp()
+        self.pending.append((t, lean_exc_expr))
+        return t
+
+    def is_list_index(self, n):
+        return (isinstance(n, ast.Subscript) and isinstance(n.value, ast.Name)
+                and self.lty.get(ident(n.value.id), "").startswith("List ") and not isinstance(n.slice, ast.Slice))
+
+    def has_raising(self, nodes):
+        """does any of the AST nodes contain a construct translated as a raising expression?"""
+        for x in nodes:
+            for n in ast.walk(x):
+                if self.is_list_index(n):
+                    return True
+                if isinstance(n, ast.Call) and isinstance(n.func, ast.Name) and n.func.id == "sqrt":
+                    return True
+                if isinstance(n, ast.Call) and isinstance(n.func, ast.Name) and n.func.id in self.localfns \
+                        and self.has_raising([self.localfns[n.func.id][1]]):
+                    return True
+        return False
+
+    def elem_ty(self, name):
+        t = self.lty[ident(name)][5:]
+        return t[1:-1] if t.startswith("(") and t.endswith(")") else t
+
     # ---- expressions --------------------------------------------------------
     def e(self, n):
+        if self.is_list_index(n):
+            # l[i]: IndexError outside the list, negative indices count from the end
+            t = self.raising("(pyGet %s %s)" % (ident(n.value.id), self.e(n.slice)))
+            self.tmp_ty[t] = self.elem_ty(n.value.id)
+            if ident(n.value.id) in self.rec_elems:
+                self.recs[t] = self.rec_elems[ident(n.value.id)]
+            return t
+        if isinstance(n, ast.Call) and isinstance(n.func, ast.Name) and n.func.id in self.localfns \
+                and n.func.id not in self.lty:
+            params, body = self.localfns[n.func.id]
+            if len(params) != len(n.args) or n.keywords:
+                raise NotImplementedError("call of the local function " + n.func.id)
+            args = [self.e(a) for a in n.args]
+            saved_l, saved_r = dict(self.lty), dict(self.recs)
+            binds = ""
+            for pn, a, an in zip(params, args, n.args):
+                ty = self.tmp_ty.get(a, self.tyof(an))
+                self.lty[ident(pn)] = ty
+                if a in self.recs:
+                    self.recs[ident(pn)] = self.recs[a]
+                binds += "let %s : %s := %s; " % (ident(pn), ty, a)
+            r = "(%s%s)" % (binds, self.e(body))
+            self.lty, self.recs = saved_l, saved_r
+            return r
         if isinstance(n, ast.Constant) and isinstance(n.value, bool):
             return "true" if n.value else "false"
         if isinstance(n, ast.Constant) and isinstance(n.value, int) and not isinstance(n.value, bool):
@@ -528,12 +606,7 @@ class Tr(object):
             if (f == "int" and len(n.args) == 1 and isinstance(n.args[0], ast.Call)
                     and isinstance(n.args[0].func, ast.Name) and n.args[0].func.id == "sqrt"
                     and len(n.args[0].args) == 1 and self.imports_sqrt):
-                if not self.is_exc() or self.cond_depth or self.loops:
-                    raise NotImplementedError("int(sqrt(..)) in a conditionally evaluated position / loop / "
-                                              "function not declared exc:")
-                t = self.tmp()
-                self.pending.append((t, "(pyIsqrt %s)" % self.e(n.args[0].args[0])))
-                return t
+                return self.raising("(pyIsqrt %s)" % self.e(n.args[0].args[0]))
             if f == "int" and len(n.args) == 1:
                 if self.tyof(n.args[0]) != "Int" or isinstance(n.args[0], ast.Call):
                     raise NotImplementedError("int() of " + ast.dump(n.args[0])[:60])
@@ -670,6 +743,31 @@ class Tr(object):
 
     def b(self, n):
         return "(decide %s)" % self.p(n)
+
+    def pexc(self, n):
+        """a condition with raising sub-expressions -> Lean `Except String Bool`, evaluated left to right with
+        Python's short-circuit rules"""
+        if isinstance(n, ast.BoolOp):
+            stop = "false" if isinstance(n.op, ast.And) else "true"
+            parts = [self.pexc(v) for v in n.values]
+            text = parts[-1]
+            for q in reversed(parts[:-1]):
+                text = "(match %s with | Except.ok %s => Except.ok %s | Except.ok _ => %s | Except.error e_ => Except.error e_)" % (
+                    q, stop, stop, text)
+            return text
+        if isinstance(n, ast.UnaryOp) and isinstance(n.op, ast.Not):
+            return "(match %s with | Except.ok v_ => Except.ok (!v_) | Except.error e_ => Except.error e_)" % self.pexc(n.operand)
+        saved, self.pending = self.pending, []
+        depth, self.cond_depth = self.cond_depth, 0
+        try:
+            c = self.b(n)
+        finally:
+            self.cond_depth = depth
+        pend, self.pending = self.pending, saved
+        text = "(Except.ok %s)" % c
+        for t, ex in reversed(pend):
+            text = "(match %s with | Except.error e_ => Except.error e_ | Except.ok %s => %s)" % (ex, t, text)
+        return text
 
     # ---- iterables -----------------------------------------------------------
     def iter_expr(self, n):
@@ -890,6 +988,18 @@ class Tr(object):
             return self.block(rest, ind, tail)          # docstring
         if isinstance(s, ast.Pass):
             return self.block(rest, ind, tail)
+        if isinstance(s, ast.FunctionDef):
+            # a nested `def f(x, ...): return e` (no defaults, no decorators): calls are expanded in place
+            body = [x for x in s.body if not (isinstance(x, ast.Expr) and isinstance(x.value, ast.Constant))]
+            a = s.args
+            if (s.decorator_list or a.vararg or a.kwarg or a.kwonlyargs or a.defaults or len(body) != 1
+                    or not isinstance(body[0], ast.Return) or body[0].value is None):
+                raise NotImplementedError("nested function %s is not of the form `def f(x): return e`" % s.name)
+            free = set(n.id for n in ast.walk(body[0].value) if isinstance(n, ast.Name)) - set(x.arg for x in a.args)
+            if any(ident(v) in self.assigned_anywhere for v in free):
+                raise NotImplementedError("nested function %s reads a variable of the enclosing function" % s.name)
+            self.localfns[s.name] = ([x.arg for x in a.args], body[0].value)
+            return self.block(rest, ind, tail)
         if isinstance(s, ast.Assert):
             if not self.is_exc():
                 return self.block(rest, ind, tail)
@@ -1018,6 +1128,7 @@ class Tr(object):
         has_ret = any(isinstance(n, (ast.Return, ast.Raise)) or (isinstance(n, ast.Assert) and self.is_exc())
                       or (isinstance(n, ast.While) and not forever(n))      # its fuel may run out
                       for x in s.body for n in ast.walk(x))
+        has_ret = has_ret or self.has_raising(s.body + ([s.test] if isinstance(s, ast.While) else []))
         has_brk = has_ret or any(isinstance(n, ast.Break) for n in own)
         return has_brk, has_ret
 
@@ -1182,12 +1293,20 @@ class Tr(object):
             return self.unpack(pad, fold, comps, tys) + self.block([], ind, tail)
         if not self.is_exc():
             raise NotImplementedError("a while loop in a function not declared exc: (fuel may run out)")
-        self.cond_depth += 1
-        c = "true" if forever else self.b(s.test)
-        self.cond_depth -= 1
-        cond = self.unpack("  ", "st_", comps, tys, skip=("ret_",)) + "  " + (("(!brk_ && %s)" % c) if has_brk else c)
+        raising_cond = not forever and self.has_raising([s.test])
         self.loops.append(Loop(comps))
-        body = self.unpack("  ", "st_", comps, tys, skip=("ret_", "brk_")) + self.block(s.body, 1, self.loops[-1].tuple("false"))
+        if raising_cond:
+            # the condition can raise: it is evaluated at the start of the body (`while True: if not c: break; ...`)
+            c = "true"
+            head = "  match %s with\n  | Except.error e_ => %s\n  | Except.ok false => %s\n  | Except.ok true =>\n" % (
+                self.pexc(s.test), self.exit_with("(Except.error e_)"), self.loops[-1].tuple("true"))
+        else:
+            self.cond_depth += 1
+            c = "true" if forever else self.b(s.test)
+            self.cond_depth -= 1
+            head = ""
+        cond = self.unpack("  ", "st_", comps, tys, skip=("ret_",)) + "  " + (("(!brk_ && %s)" % c) if has_brk else c)
+        body = self.unpack("  ", "st_", comps, tys, skip=("ret_", "brk_")) + head + self.block(s.body, 1, self.loops[-1].tuple("false"))
         self.loops.pop()
         self.lty = saved
         ccaps = self.captured(saved, comps, cond)
@@ -1320,6 +1439,13 @@ def translate(repo, rel, fname, ptypes, ret, done=None):
     tr.imports_sqrt = any(isinstance(n, ast.ImportFrom) and n.module == "math" and any(
         al.name == "sqrt" and al.asname is None for al in n.names) for n in tree.body)
     tr.rec_elems = dict((ident(p), t[9:].split(",")) for p, t in zip(params, ptypes) if t.startswith("list:rec:"))
+    tr.assigned_anywhere = set()
+    for n in ast.walk(fn):
+        if isinstance(n, (ast.Assign, ast.AugAssign, ast.For)):
+            for t in (n.targets if isinstance(n, ast.Assign) else [n.target]):
+                for x in ast.walk(t):
+                    if isinstance(x, ast.Name):
+                        tr.assigned_anywhere.add(ident(x.id))
     base = ret[4:] if ret.startswith("exc:") else ret
     if ret.startswith(("gen:", "calls:")):
         rty = lean_ty(ret)
